@@ -53,10 +53,15 @@ Definition cat_dest (f : flow) (nd : node) (cats : list category) (cu : id) : st
               end
   end.
 
+(* a category whose name is the single pseudo-character WILD (reference flows only: a
+   name the sheet does not fix) is rendered as the wildcard atom *)
+Definition name_sexp (s : str) : sexp :=
+  match s with [c] => if N.eqb c WILD then A WILD else enc_str s | _ => enc_str s end.
+
 Definition cat_name (cats : list category) (cu : id) : sexp :=
   match find (fun c => str_eqb (c_uuid c) cu) cats with
   | None => L [A 0%N]
-  | Some c => enc_str (c_name c)
+  | Some c => name_sexp (c_name c)
   end.
 
 (* ---------------------------------------------------------------- labels *)
@@ -85,7 +90,7 @@ Definition router_sig (r : router) : sexp :=
     L [A 1%N; enc_str operand; wait_sig cats w; enc_ostr rn;
        L (map (case_sig cats) cases); cat_name cats dflt]
   | RRandom cats rn =>
-    L [A 2%N; enc_ostr rn; L (map (fun c => enc_str (c_name c)) cats)]
+    L [A 2%N; enc_ostr rn; L (map (fun c => name_sexp (c_name c)) cats)]
   end.
 
 Definition b_case (i : nat) : sexp := L [A 0%N; A (N.of_nat i)].
